@@ -21,7 +21,7 @@ CONFIGS = {
               ("scaled", "TdmsScaling", "TdmsScaling.cfg", {"MaxScales": 1, "RawTypes": '{"int16"}', "Levels": '{"channel"}',
                                                             "UnaryKinds": '{"Linear", "NoOp"}',
                                                             "DaqTypes": '{"int16", "uint8", "float32", "uint64"}', "MaxDaqScales": 1}),
-              ("plain", "MC_C01_types", "MC_C01_types.cfg", {"MaxSegs": 1, "NVals": "{3}", "KVals": "{1, 3}"})],
+              ("plain", "MC_C01_types", "MC_C01_types.cfg", {"MaxSegs": 1, "NVals": "{0, 3}", "KVals": "{1, 3}"})],
     "thorough": [("scaled", "TdmsScaling", "TdmsScaling.cfg", {"MaxScales": 2, "RawTypes": ALL, "Levels": '{"channel"}',
                                                                "UnaryKinds": '{"Linear", "Polynomial", "Table", "NoOp", "Sensor"}'}),
                  ("plain", "MC_C01_types", "MC_C01_types.cfg", {"MaxSegs": 1}),
